@@ -174,3 +174,103 @@ def expand_helpers(module, text, depth=3):
             break
         text = new
     return text
+
+
+# ---------------------------------------------------------------------------------------------------
+# order / multiplicity of input collections
+
+_REORDER_FUNCS = {'sorted', 'set', 'frozenset', 'reversed'}
+_REORDER_METHODS = {'sort', 'reverse'}
+
+
+def _flows(expr, tainted):
+    """Does a tainted collection (or an element of one) flow through `expr` unchanged?  Arithmetic,
+    comparisons and boolean operators produce new scalars and stop the flow."""
+    if isinstance(expr, ast.Name):
+        return expr.id in tainted
+    if isinstance(expr, (ast.Subscript, ast.Attribute, ast.Starred)):
+        return _flows(expr.value, tainted)
+    if isinstance(expr, (ast.Tuple, ast.List, ast.Set)):
+        return any(_flows(e, tainted) for e in expr.elts)
+    if isinstance(expr, ast.Call):
+        if isinstance(expr.func, ast.Attribute) and _flows(expr.func.value, tainted):
+            return True
+        return any(_flows(a, tainted) for a in expr.args)
+    if isinstance(expr, (ast.ListComp, ast.GeneratorExp, ast.SetComp)):
+        t2 = set(tainted)
+        for g in expr.generators:
+            if _flows(g.iter, t2):
+                t2 |= {n.id for n in ast.walk(g.target) if isinstance(n, ast.Name)}
+        return _flows(expr.elt, t2)
+    if isinstance(expr, ast.IfExp):
+        return _flows(expr.body, tainted) or _flows(expr.orelse, tainted)
+    return False
+
+
+def reorder_sites(prog, pred):
+    """Call sites in the functions selected by `pred` that sort, reverse or de-duplicate a collection
+    holding elements of the function's input (name-level flow: parameters, their elements via
+    for / subscript, plain copies and .append / .extend / += of those)."""
+    out = []
+    nfun = 0
+    for f in prog.all_functions():
+        if not pred(f):
+            continue
+        nfun += 1
+        tainted = {a.arg for a in f.node.args.args + f.node.args.kwonlyargs if a.arg not in ('self', 'cls')}
+        for _ in range(4):
+            before = len(tainted)
+            for n in ast.walk(f.node):
+                if isinstance(n, ast.Assign) and _flows(n.value, tainted):
+                    for t in n.targets:
+                        tainted |= {x.id for x in ast.walk(t) if isinstance(x, ast.Name) and isinstance(x.ctx, ast.Store)}
+                elif isinstance(n, ast.AugAssign) and isinstance(n.target, ast.Name) and _flows(n.value, tainted):
+                    tainted.add(n.target.id)
+                elif isinstance(n, (ast.For, ast.comprehension)) and _flows(n.iter, tainted):
+                    tainted |= {x.id for x in ast.walk(n.target) if isinstance(x, ast.Name)}
+                elif isinstance(n, ast.Call) and isinstance(n.func, ast.Attribute) and \
+                        n.func.attr in ('append', 'extend', 'insert', 'add', 'update') and \
+                        isinstance(n.func.value, ast.Name) and any(_flows(a, tainted) for a in n.args):
+                    tainted.add(n.func.value.id)
+            if len(tainted) == before:
+                break
+        for n in ast.walk(f.node):
+            what = None
+            if isinstance(n, ast.Call) and isinstance(n.func, ast.Name) and n.func.id in _REORDER_FUNCS and n.args \
+                    and _flows(n.args[0], tainted):
+                a0 = n.args[0]
+                if isinstance(a0, ast.Call) and isinstance(a0.func, ast.Attribute) and a0.func.attr in ('keys', 'items'):
+                    continue        # dict keys: equality of the decoded dict does not depend on their order
+                what = '%s(%s)' % (n.func.id, src_of(a0))
+            elif isinstance(n, ast.Call) and isinstance(n.func, ast.Attribute) and n.func.attr in _REORDER_METHODS \
+                    and _flows(n.func.value, tainted):
+                what = '%s.%s()' % (src_of(n.func.value), n.func.attr)
+            elif isinstance(n, ast.Call) and src_of(n.func) == 'dict.fromkeys' and n.args and _flows(n.args[0], tainted):
+                what = 'dict.fromkeys(%s)' % src_of(n.args[0])
+            elif isinstance(n, ast.Subscript) and isinstance(n.slice, ast.Slice) and n.slice.step is not None and \
+                    src_of(n.slice.step) == '-1' and _flows(n.value, tainted):
+                what = '%s[::-1]' % src_of(n.value)
+            if what:
+                out.append((f, n, what))
+    return nfun, out
+
+
+def well_known_names(prog, rep, rule):
+    """Every name Community.parse renders is, after Community.construct's normaliser, a key of the reverse
+    table with the same value."""
+    cm = prog.modules[CONS_Q]
+    I2S = prog.fold(cm.assigns['WELL_KNOW_COMMUNITY_INT_2_STR'], cm)
+    S2I = prog.fold(cm.assigns['WELL_KNOW_COMMUNITY_STR_2_INT'], cm)
+    cf = prog.func('yabgp.message.attribute.community.Community.construct')
+    norm = 'upper' if '.upper()' in src_of(cf.node) else ('lower' if '.lower()' in src_of(cf.node) else None)
+    rep.floor(rule, 'well-known names', len(I2S), 11)
+    for val, name in sorted(I2S.items()):
+        key = 'well-known:%s' % name
+        n2 = getattr(name, norm)() if norm else name
+        if S2I.get(n2) == val:
+            rep.ok(rule, key, file=cm.relpath, line=cm.assign_lines.get('WELL_KNOW_COMMUNITY_INT_2_STR'))
+        else:
+            rep.bad(rule, key, file=cm.relpath, line=cm.assign_lines.get('WELL_KNOW_COMMUNITY_STR_2_INT'),
+                    func=cf.qualname,
+                    found='Community.parse renders %r; Community.construct looks up %r, which maps to %s' % (
+                        name, n2, S2I.get(n2)), expected='0x%08x' % val, key=key)
